@@ -169,7 +169,128 @@ def run(ctx):
     r.ob(s.q, "comparison direction", cmps == {"asc": "<", "desc": ">"}, "ascending uses <, descending uses >: %s" % cmps, "Include/Memory.hpp:%d" % s.line)
     rec = [c for c in astq.calls(s, "Sort")]
     ranges = [tuple(s.text(a) for a in s.call_args(c)[1:]) for c in rec]
-    r.ob(s.q, "both partitions", len(rec) >= 2 or (len(rec) == 1 and bool(astq.nodes_of(s, ("WhileStmt", "DoStmt", "ForStmt")))), "recursive calls on %s" % ranges, "Include/Memory.hpp:%d" % s.line)
+    # both partitions: on every path through the body of the outer loop (or of the function), the ranges handed to the
+    # recursive calls plus the range the loop continues with must include [start, pivot) and [pivot + 1, end)
+    def lin(nid):
+        """(variable, constant) of a linear expression  v + c  (None when it is not of that shape)"""
+        n = s.nodes[nid]
+        k = n["k"]
+        if k in ("ParenExpr", "ImplicitCastExpr", "CXXFunctionalCastExpr", "CXXUnresolvedConstructExpr", "InitListExpr", "CStyleCastExpr",
+                 "CXXStaticCastExpr", "CXXTemporaryObjectExpr", "CXXConstructExpr", "MaterializeTemporaryExpr", "ConstantExpr") and len(n.get("ch", [])) == 1:
+            return lin(n["ch"][0])
+        if k == "IntegerLiteral":
+            return (None, n.get("cv", 0))
+        if k == "DeclRefExpr":
+            return (n["n"], 0)
+        if k == "BinaryOperator" and n["op"] in ("+", "-"):
+            x, y = lin(n["ch"][0]), lin(n["ch"][1])
+            if x is None or y is None:
+                return None
+            if n["op"] == "+" and (x[0] is None or y[0] is None):
+                return (x[0] or y[0], x[1] + y[1])
+            if n["op"] == "-" and y[0] is None:
+                return (x[0], x[1] - y[1])
+        return None
+
+    def norm_rng(nid):
+        v = lin(nid)
+        if v is None:
+            return s.text(nid).replace(" ", "")
+        return (v[0] or "") + ("%+d" % v[1] if v[1] else "") if v[0] else str(v[1])
+
+    lo_name, hi_name = s.params[1]["n"], s.params[2]["n"]
+
+    def paths(stmts):
+        out = [[]]
+        for st in stmts:
+            n = s.nodes[st]
+            if n["k"] == "CompoundStmt":
+                sub = paths(n.get("ch", []))
+            elif n["k"] == "IfStmt":
+                a = paths([n["then"]])
+                b = paths([n["else"]]) if n["else"] >= 0 else [[]]
+                sub = a + b
+            elif n["k"] in ("WhileStmt", "DoStmt", "ForStmt"):
+                sub = [[]]
+            else:
+                ev = []
+                for c in astq.calls(s, "Sort", st):
+                    a = s.call_args(c)
+                    ev.append(("rec", norm_rng(a[1]), norm_rng(a[2])))
+                for x in s.walk(st):
+                    nx = s.nodes[x]
+                    if nx["k"] == "BinaryOperator" and nx["op"] == "=" and s.text(nx["ch"][0]) in (lo_name, hi_name):
+                        ev.append(("set", s.text(nx["ch"][0]), norm_rng(nx["ch"][1])))
+                sub = [ev]
+            out = [p_ + q_ for p_ in out for q_ in sub]
+        return out
+    loops = [w for w in astq.nodes_of(s, ("WhileStmt", "DoStmt", "ForStmt")) if astq.enclosing(s, w, ("WhileStmt", "DoStmt", "ForStmt")) is None]
+    body = s.nodes[loops[0]]["body"] if loops else s.body
+    piv = None
+    missing = []
+    for pth in paths([body]):
+        cov = set()
+        cur = {lo_name: lo_name, hi_name: hi_name}
+        for ev in pth:
+            if ev[0] == "rec":
+                cov.add((ev[1], ev[2]))
+            else:
+                cur[ev[1]] = ev[2]
+        if loops and (cur[lo_name], cur[hi_name]) != (lo_name, hi_name):
+            cov.add((cur[lo_name], cur[hi_name]))
+        if not pth:
+            continue
+        # the pivot position: the upper bound of a range starting at `start`
+        pivs = [hi for (lo, hi) in cov if lo == lo_name and hi != hi_name]
+        pv = pivs[0] if pivs else (piv or "?")
+        piv = piv or (pivs[0] if pivs else None)
+        need = {(lo_name, pv), ("%s+1" % pv, hi_name)}
+        if not need <= cov:
+            missing.append("path covers %s, needs %s" % (sorted(cov), sorted(need)))
+    r.ob(s.q, "both partitions", bool(rec) and not missing, "recursive calls on %s%s" % (ranges, ("; " + "; ".join(missing[:2])) if missing else
+         "; every path recurses into or continues with both [%s, pivot) and [pivot + 1, %s)" % (lo_name, hi_name)), "Include/Memory.hpp:%d" % s.line)
+    # frame: every element touched lies inside [start, end) -- the recursion argument needs each call to leave the rest alone
+    from qlib.zone import Zone, Lin, ContractTable, Contract
+    from qlib import dataflow as _df
+    z = Zone(m, s, ContractTable({}), assume_entry=[(lo_name, hi_name, 0)])
+    zst = _df.run(s, z)
+    n2t = z.name_terms()
+    lo_t, hi_t = n2t(lo_name), n2t(hi_name)
+    arr_name = s.params[0]["n"]
+    outside = []
+    n_sub = [0]
+
+    def vis(b, i, e, st):
+        if e is None or "n" not in e or e.get("k") or st.bottom:
+            return
+        n = s.nodes[e["n"]]
+        if n["k"] != "ArraySubscriptExpr" or s.text(n["ch"][0]) != arr_name:
+            return
+        il = z.lin(st, n["ch"][1])
+        n_sub[0] += 1
+        if il is None:
+            outside.append("%s at %s: index is not a linear form" % (s.text(e["n"]), s.loc(e["n"])))
+            return
+        ok_lo = st.lin_le0(Lin({lo_t: 1}) - il)
+        ok_hi = st.lin_le0((il - Lin({hi_t: 1})).shift(1))
+        if not (ok_lo and ok_hi):
+            outside.append("%s at %s: %s" % (s.text(e["n"]), s.loc(e["n"]), " and ".join(x for x in (None if ok_lo else "%s <= index not proven" % lo_name, None if ok_hi else "index < %s not proven" % hi_name) if x)))
+    _df.replay(s, z, zst, vis)
+    # the entry assumption start <= end is re-established at every recursive call
+    def vis_rec(b, i, e, st):
+        if e is None or "n" not in e or e.get("k") or st.bottom:
+            return
+        if e["n"] in rec:
+            a = s.call_args(e["n"])
+            la, lb = z.lin(st, a[1]), z.lin(st, a[2])
+            if la is None or lb is None or not st.lin_le0(la - lb):
+                outside.append("recursive call %s at %s: lower bound <= upper bound not proven" % (s.text(e["n"]), s.loc(e["n"])))
+    _df.replay(s, z, zst, vis_rec)
+    if n_sub[0] < 4:
+        r.broke("Memory::Sort: fewer than 4 element accesses found (%d)" % n_sub[0])
+    r.ob(s.q, "frame: %d element accesses within [%s, %s)" % (n_sub[0], lo_name, hi_name), not outside,
+         "E-ZONE proves %s <= index < %s at every %s[...]%s" % (lo_name, hi_name, arr_name, "" if not outside else "; NOT for " + "; ".join(outside[:2]) +
+         " -- a call may then move elements of a part that is already in place"), "Include/Memory.hpp:%d" % s.line)
     # SK-depth: every recursive call except (at most) one in tail position must be on the smaller partition:
     # it must be dominated by a comparison of the two partition sizes
     unguarded = []
